@@ -515,8 +515,9 @@ def check_ut_case(line, meta, h, stats, notes):
     """first pass: shapes, flag, sigma-point predicates; returns (problems, parsed output, factors)"""
     probs = []
     if not h.startswith("ok"):
-        kind = "ut-crash" if meta["valid"] else "ut-crash-on-failure"
-        return [("prop", kind, "unscented_transform (%s overload) failed on a valid input: %s" % (meta["mode"], h[:80]))], None, None
+        if meta["valid"]:
+            return [("prop", "ut-crash", "unscented_transform (%s overload) failed on a valid input: %s" % (meta["mode"], h[:80]))], None, None
+        return [("prop", "ut-crash-on-failure", "unscented_transform (%s overload): a failed function evaluation was not reported as failure, the call ended with %s" % (meta["mode"], h[:80]))], None, None
     o = parse_ut_out(h, meta)
     nx, nz, ny, k = meta["nx"], meta["nz"], meta["ny"], meta["k"]
     n = nx + nz
